@@ -561,7 +561,7 @@ def gen_case(rng, tier):
 
 
 def generate(rng, tier):
-    n = 700 if tier == "quick" else 9000
+    n = 700 if tier == "quick" else 5000
     return [gen_case(rng, tier) for _ in range(n)]
 
 
@@ -599,3 +599,129 @@ def distribution(cases, obs):
         key = c["kind"] + "/wl%d" % c["wl"]["mode"]
         d[key] = d.get(key, 0) + 1
     return d
+
+
+# ----------------------------------------------------------------------------- real-kernel soak (thorough)
+
+def _free_port():
+    import socket
+    s = socket.socket(socket.AF_INET, socket.SOCK_STREAM)
+    s.bind(("127.0.0.1", 0))
+    port = s.getsockname()[1]
+    s.close()
+    return port
+
+
+def soak(tls, seed, total=600000, sockbuf=2048, bs=1024, max_cycles=3000000, max_secs=40):
+    """Real loopback connection (plain or TLS) with tiny kernel buffers and slow readers on both sides.
+    Both directions at once.  Returns (why | None, stats)."""
+    import random, socket, time
+    from pathlib import Path
+    from hio.base import tyming
+    from hio.core import wiring
+    from hio.core.tcp import clienting, serving
+    rng = random.Random(seed)
+    port = _free_port()
+    tymist = tyming.Tymist()
+    wlc = wiring.WireLog(samed=False, filed=False, fmt=b"%(data)b")
+    wls = wiring.WireLog(samed=False, filed=False, fmt=b"%(data)b")
+    wlc.reopen(); wls.reopen()
+    certs = Path(os.environ.get("VERIF_CERTS", "/repo/tests/core/tcp/certs"))
+    if tls:
+        server = serving.ServerTls(ha=("127.0.0.1", port), bs=bs, wl=wls, tymth=tymist.tymen(),
+                                   keypath=str(certs / "server_key.pem"), certpath=str(certs / "server_cert.pem"),
+                                   cafilepath=str(certs / "client.pem"), certify=ssl.CERT_NONE)
+        client = clienting.ClientTls(ha=("127.0.0.1", port), bs=bs, wl=wlc, tymth=tymist.tymen(), certedhost="localhost",
+                                     keypath=str(certs / "client_key.pem"), certpath=str(certs / "client_cert.pem"),
+                                     cafilepath=str(certs / "server.pem"), certify=ssl.CERT_NONE, hostify=False)
+    else:
+        server = serving.Server(ha=("127.0.0.1", port), bs=bs, wl=wls, tymth=tymist.tymen())
+        client = clienting.Client(ha=("127.0.0.1", port), bs=bs, wl=wlc, tymth=tymist.tymen())
+    stats = {"tls": tls, "cycles": 0, "sends_left_data": 0, "sends_no_progress": 0, "bytes_each_way": total}
+    try:
+        if not server.reopen():
+            return "soak: cannot listen on loopback", stats
+        client.reopen()
+        for opt in (socket.SO_SNDBUF, socket.SO_RCVBUF):     # before connecting, so the windows start small
+            client.cs.setsockopt(socket.SOL_SOCKET, opt, sockbuf)
+            server.ss.setsockopt(socket.SOL_SOCKET, opt, sockbuf)
+        t0 = time.time()
+        while not (client.connected and server.ixes):
+            client.serviceConnect()
+            server.serviceConnects()
+            if time.time() - t0 > 20:
+                return "soak: connection not established in 20 s", stats
+        rm = list(server.ixes.values())[0]
+        stats["bufs"] = [client.actualBufSizes(), (rm.cs.getsockopt(socket.SOL_SOCKET, socket.SO_SNDBUF),
+                                                   rm.cs.getsockopt(socket.SOL_SOCKET, socket.SO_RCVBUF))]
+        t0 = time.time()
+        sent = {"c": bytearray(), "s": bytearray()}      # everything handed to tx by client / server side
+        seen = {"c": 0, "s": 0}                           # verified length of what the peer of c / of s received
+        ends = {"c": (client, rm), "s": (rm, client)}
+        for cycle in range(max_cycles):
+            stats["cycles"] = cycle + 1
+            for who, (tx_end, _) in ends.items():
+                if len(sent[who]) < total and rng.random() < 0.3:
+                    n = min(total - len(sent[who]), rng.choice([1, 7, 100, 1500, 9000, 30000]))
+                    chunk = rng.randbytes(n)
+                    tx_end.tx(chunk)
+                    sent[who].extend(chunk)
+            for tx_end in (client, rm):
+                before = len(tx_end.txbs)
+                if tx_end is client:
+                    client.serviceSends()
+                else:
+                    server.serviceSendsAllIx()
+                if before and len(tx_end.txbs):
+                    stats["sends_left_data"] += 1
+                    if len(tx_end.txbs) == before:
+                        stats["sends_no_progress"] += 1
+            if rng.random() < 0.2:
+                server.serviceReceivesAllIx()
+            if rng.random() < 0.2:
+                client.serviceReceives()
+            for who, (tx_end, rx_end) in ends.items():
+                got = rx_end.rxbs
+                if len(got) > len(sent[who]):
+                    return f"soak: peer of {who} received more bytes than were transmitted", stats
+                if bytes(got[seen[who]:]) != bytes(sent[who][seen[who]:len(got)]):
+                    return f"soak: bytes received by the peer of {who} are not a prefix of what was transmitted (cycle {cycle})", stats
+                seen[who] = len(got)
+            if client.cutoff or rm.cutoff:
+                return "soak: healthy loopback connection was marked cutoff", stats
+            if all(len(sent[w]) == total and seen[w] == total for w in sent):
+                break
+            if time.time() - t0 > max_secs:
+                return f"soak: not everything delivered after {max_secs} s / {cycle} services: {seen} of {total}", stats
+            if cycle % 50 == 49:
+                time.sleep(0.0005)      # let the loopback stack run
+        else:
+            return f"soak: not everything delivered after {max_cycles} services: {seen} of {total}", stats
+        if client.txbs or rm.txbs:
+            return "soak: txbs not empty although the peer has everything", stats
+        for name, logged, real in (("client tx log", wlc.readTx(), sent["c"]), ("client rx log", wlc.readRx(), sent["s"]),
+                                   ("server tx log", wls.readTx(), sent["s"]), ("server rx log", wls.readRx(), sent["c"])):
+            if logged != bytes(real):
+                return f"soak: {name} differs from the bytes actually moved", stats
+        return None, stats
+    finally:
+        client.close()
+        server.close()
+        wlc.close()
+        wls.close()
+
+
+def extra(tier, ctx):
+    if tier != "thorough":
+        return {}
+    out = {"soak": []}
+    for tls in (False, True):
+        for k in range(3):
+            try:
+                why, stats = soak(tls, ctx.seed * 100 + k)
+            except Exception as ex:     # an exception out of servicing a healthy connection is a failure too
+                why, stats = f"soak: {type(ex).__name__}: {ex}", {"tls": tls}
+            out["soak"].append(stats)
+            if why:
+                ctx.violations.append({"kind": "soak", "why": why, "case": {"soak": {"tls": tls, "seed": ctx.seed * 100 + k}}})
+    return out
